@@ -14,6 +14,28 @@ PWRITE = '@_ZN6Teakra15MemoryInterface12ProgramWriteEjt'
 MATCHER_SIZE = 72
 
 
+def extract_rows(ex, st, vec):
+    """read the Matcher objects of a std::vector<Matcher<V>> built inside the executor"""
+    b = ex.load(st, Ptr(vec, 0), 8)
+    e_ = ex.load(st, Ptr(vec, 8), 8)
+    n = (e_.o - b.o) // MATCHER_SIZE
+    rows = []
+    for i in range(n):
+        mp = Ptr(b.r, b.o + MATCHER_SIZE * i)
+        nm = kit.cstring(ex, st, ex.load(st, mp, 8))
+        mask = ex.load(st, Ptr(mp.r, mp.o + 8), 2)
+        exp = ex.load(st, Ptr(mp.r, mp.o + 10), 2)
+        expanded = ex.load(st, Ptr(mp.r, mp.o + 12), 1)
+        rb = ex.load(st, Ptr(mp.r, mp.o + 48), 8)
+        re_ = ex.load(st, Ptr(mp.r, mp.o + 56), 8)
+        rej = []
+        if rb.r != 0:
+            for k in range((re_.o - rb.o) // 4):
+                rej.append((ex.load(st, Ptr(rb.r, rb.o + 4 * k), 2), ex.load(st, Ptr(rb.r, rb.o + 4 * k + 2), 2)))
+        rows.append({'i': i, 'ptr': mp, 'name': nm, 'mask': mask, 'expected': exp, 'expanded': expanded, 'rejectors': rej})
+    return rows
+
+
 def tree_layout(tree):
     exe = build.compile_exe('layout.cpp', tree=tree, defs=['-Wno-invalid-offsetof'])
     return json.loads(subprocess.run([exe], capture_output=True, text=True, check=True).stdout)
@@ -103,23 +125,8 @@ class IEnv:
         vec = ex.new_region(st, 24, 'table_vec')
         r = ex.call(st, '@mk_table', [Ptr(vec, 0)])
         st = r[0]
+        rows = extract_rows(ex, st, vec)
         b = ex.load(st, Ptr(vec, 0), 8)
-        e_ = ex.load(st, Ptr(vec, 8), 8)
-        n = (e_.o - b.o) // MATCHER_SIZE
-        rows = []
-        for i in range(n):
-            mp = Ptr(b.r, b.o + MATCHER_SIZE * i)
-            nm = kit.cstring(ex, st, ex.load(st, mp, 8))
-            mask = ex.load(st, Ptr(mp.r, mp.o + 8), 2)
-            exp = ex.load(st, Ptr(mp.r, mp.o + 10), 2)
-            expanded = ex.load(st, Ptr(mp.r, mp.o + 12), 1)
-            rb = ex.load(st, Ptr(mp.r, mp.o + 48), 8)
-            re_ = ex.load(st, Ptr(mp.r, mp.o + 56), 8)
-            rej = []
-            if rb.r != 0:
-                for k in range((re_.o - rb.o) // 4):
-                    rej.append((ex.load(st, Ptr(rb.r, rb.o + 4 * k), 2), ex.load(st, Ptr(rb.r, rb.o + 4 * k + 2), 2)))
-            rows.append({'i': i, 'ptr': mp, 'name': nm, 'mask': mask, 'expected': exp, 'expanded': expanded, 'rejectors': rej})
         ex.unwind = 300
         s.rows = rows
         ctx = {'regs': regs, 'interp': Ptr(interp, 0), 'dm': dm, 'pm': pm, 'table': b, 'vec': vec}
